@@ -212,6 +212,9 @@ func runC14Mcrew(c *sim.Ctx, t *testing.T) {
 			svPredict(m, mids, wantSeen, wantEmitted)
 		}
 	}
+	// the step limit is per-request configuration (re-injected messages inherit it);
+	// a recorder needs two strides per message, so 2 makes every walk end exactly at the limit
+	ctl := &core.Control{Limit: []int{2, 2, 3, 100}[c.Intn(4, "limit")]}
 	var (
 		final    map[string][]string
 		gotEmit  = map[string]int{}
@@ -243,7 +246,7 @@ func runC14Mcrew(c *sim.Ctx, t *testing.T) {
 			s.Go(fmt.Sprintf("client%d", i), func(tk *sim.Task) {
 				for _, m := range plans[i] {
 					sim.Yield("h#submit")
-					walkeds, err := svc.Process(ctx, svJSONCopy(m), nil)
+					walkeds, err := svc.Process(ctx, svJSONCopy(m), ctl)
 					if err != nil {
 						rets[i] = append(rets[i], "ERR:"+err.Error())
 						continue
@@ -353,7 +356,7 @@ func runC14Mcrew(c *sim.Ctx, t *testing.T) {
 	}
 	c.Add("emitted", len(wantEmitted))
 	c.Add("steps_with_choice", c.Sched.Switches)
-	shape := fmt.Sprintf("%d/%d/%d", nm, g.n, len(wantEmitted))
+	shape := fmt.Sprintf("%d/%d/%d/%d", nm, g.n, len(wantEmitted), ctl.Limit)
 	c.MixHash(shape + fmt.Sprint(final))
 	c.Path = fmt.Sprintf("%s|%016x", shape, c.Sched.Hash)
 	c.Trivial = g.n < 2
